@@ -41,7 +41,7 @@ pub struct Step {
 }
 
 /// a block built by another producer (real Block::create on a node replaying `chain`)
-fn peer_block(p: &Prod, chain: &[Vec<u8>], txs: Vec<Transaction>, ts: u64, gt: bool) -> Result<Vec<u8>, String> {
+pub fn peer_block(p: &Prod, chain: &[Vec<u8>], txs: Vec<Transaction>, ts: u64, gt: bool) -> Result<Vec<u8>, String> {
     let who = key(7);
     let mut n = LedgerNode::new(who, p.cfg.clone());
     for b in chain.iter() {
@@ -73,7 +73,7 @@ fn peer_block(p: &Prod, chain: &[Vec<u8>], txs: Vec<Transaction>, ts: u64, gt: b
     }
 }
 
-fn set_chain(p: &mut Prod, chain: Vec<Vec<u8>>) {
+pub fn set_chain(p: &mut Prod, chain: Vec<Vec<u8>>) {
     let mut l = RefLedger::default();
     for b in chain.iter() {
         l.apply(&decode_block(b));
